@@ -8,6 +8,7 @@ import Pi2.Proof
 import Pi2.MM.Compressed
 import Pi2.MM.Translate
 import Pi2.MM.Slice
+import Pi2.Kore
 import Pi2.Taut
 import Pi2.PrettyPat
 /-!
@@ -402,3 +403,41 @@ def mdbOfSexp : Sexp → Option MM.MDb
   | _ => none
 
 def mdbToStr (db : MM.MDb) : String := "(" ++ " ".intercalate ("mdb" :: db.map mstmtToStr) ++ ")"
+
+/-! ### Kore -/
+open Sexp in
+def ksortOfSexp : Sexp → Option Kore.KSort
+  | .list [.atom "sv", n] => do pure (.var (← nat? n))
+  | .list [.atom "s", n] => do pure (.app (← nat? n))
+  | _ => none
+
+open Sexp in
+partial def ktermOfSexp : Sexp → Option Kore.KTerm
+  | .list [.atom "evar", n] => do pure (.evar (← nat? n))
+  | .list [.atom "app", f, .list ss, .list as] => do pure (.app (← nat? f) (← ss.mapM ksortOfSexp) (← as.mapM ktermOfSexp))
+  | .list [.atom "dv", s, v] => do pure (.dv (← ksortOfSexp s) (← nat? v))
+  | .list [.atom "top", s] => do pure (.top (← ksortOfSexp s))
+  | .list [.atom "bottom", s] => do pure (.bottom (← ksortOfSexp s))
+  | .list [.atom "not", s, p] => do pure (.not (← ksortOfSexp s) (← ktermOfSexp p))
+  | .list [.atom "next", s, p] => do pure (.next (← ksortOfSexp s) (← ktermOfSexp p))
+  | .list [.atom "and", s, l, r] => do pure (.and (← ksortOfSexp s) (← ktermOfSexp l) (← ktermOfSexp r))
+  | .list [.atom "or", s, l, r] => do pure (.or (← ksortOfSexp s) (← ktermOfSexp l) (← ktermOfSexp r))
+  | .list [.atom "implies", s, l, r] => do pure (.implies (← ksortOfSexp s) (← ktermOfSexp l) (← ktermOfSexp r))
+  | .list [.atom "iff", s, l, r] => do pure (.iff (← ksortOfSexp s) (← ktermOfSexp l) (← ktermOfSexp r))
+  | .list [.atom "rewrites", s, l, r] => do pure (.rewrites (← ksortOfSexp s) (← ktermOfSexp l) (← ktermOfSexp r))
+  | .list [.atom "ceil", a, b, p] => do pure (.ceil (← ksortOfSexp a) (← ksortOfSexp b) (← ktermOfSexp p))
+  | .list [.atom "floor", a, b, p] => do pure (.floor (← ksortOfSexp a) (← ksortOfSexp b) (← ktermOfSexp p))
+  | .list [.atom "equals", a, b, l, r] => do pure (.equals (← ksortOfSexp a) (← ksortOfSexp b) (← ktermOfSexp l) (← ktermOfSexp r))
+  | .list [.atom "in", a, b, l, r] => do pure (.kin (← ksortOfSexp a) (← ksortOfSexp b) (← ktermOfSexp l) (← ktermOfSexp r))
+  | _ => none
+
+open Sexp in
+def ksigOfSexp : Sexp → Option Kore.Sig
+  | .list [.atom "sig", sorts, .list syms] => do
+      let ds ← syms.mapM fun d => match d with
+        | .list [n, sp, inp, .atom cell, .atom fn, .atom kseq] => do
+            pure ({ name := ← nat? n, nSortParams := ← nat? sp, nInputs := ← nat? inp, isCell := cell == "1",
+                    isFunctional := fn == "1", isKseq := kseq == "1" } : Kore.SymDecl)
+        | _ => none
+      pure { sorts := ← natList? sorts, symbols := ds }
+  | _ => none
